@@ -289,7 +289,7 @@ class PropertyDescriptor(Symbol):
         updated = False
         if isinstance(v, MonitoredContainer):
             updated = v._update(range_value, add_relation_to_the_graph=False)
-        elif v != range_value:
+        elif v is not range_value:
             setattr(domain_value, self.private_attr_name, range_value)
             updated = True
         return updated
